@@ -690,8 +690,21 @@ class _ReturnAndYieldChecks(SyntaxRule):
     def get_node(self, leaf):
         return leaf.parent
 
+    def _is_in_lambda_body(self, leaf):
+        # A lambda is a function as well. Its defaults however belong to
+        # the enclosing scope.
+        node = leaf
+        while node.parent is not None and node is not self._normalizer.context.node:
+            parent = node.parent
+            if parent.type == 'lambdef' and node is parent.children[-1]:
+                return True
+            node = parent
+        return False
+
     def is_issue(self, leaf):
         if self._normalizer.context.node.type != 'funcdef':
+            if leaf.value == 'yield' and self._is_in_lambda_body(leaf):
+                return
             self.add_issue(self.get_node(leaf), message="'%s' outside function" % leaf.value)
         elif self._normalizer.context.is_async_funcdef() \
                 and any(self._normalizer.context.node.iter_yield_exprs()):
